@@ -10,7 +10,10 @@ import pl  # noqa: E402
 LEVEL = "exploration"
 
 
-GEO = [[], ["--PhaseSpaceSize", 10], ["--PhaseSpaceShiftX", 1], ["--PhaseSpaceShiftY", 3, "--PhaseSpaceShiftX", -2], ["-I", 1e-3, 0, 2e-3]]
+GEO = [[], ["--PhaseSpaceSize", 10], ["--PhaseSpaceShiftX", 1], ["--PhaseSpaceShiftY", 3, "--PhaseSpaceShiftX", -2], ["-I", 1e-3, 0, 2e-3],
+       # options that concern something else (how tracked particles are moved, the RF model, the interpolation order, the output): the limit is the same
+       ["--FPTrack", 0], ["--FPTrack", 1], ["--FPTrack", 2], ["--LinearRF", "false"], ["--InterpolationPoints", 3], ["--SavePhaseSpace", 2],
+       ["--RenormalizeCharge", 7], ["--InterpolateClamped", "true"], ["--CutoffFreq", 0]]
 
 
 def process_level(res, tier):
@@ -23,7 +26,7 @@ def process_level(res, tier):
                 for fptype in (3, 1):
                     cases.append((n, stencil, zoom, fptype, 0))
         # grid geometry: another phase-space size, an odd grid, axes shifted (the limit is a property of the physics, not of where the grid sits)
-        for geo in (1, 2, 3, 4):      # 4: a train (two bunches and an empty bucket) - every bunch relaxes like a single one
+        for geo in range(1, len(GEO)):      # 4: a train (two bunches and an empty bucket) - every bunch relaxes like a single one
             # the explicit scheme's stable range: per-step decrement over cell^2 at most 1/2 (outside it the program produces NaN - not a C04 matter)
             if (2.0 / (2.0 * 64)) / (((10.0 if geo == 1 else 12.0) / (n - 1)) ** 2) > 0.5:
                 continue
